@@ -720,6 +720,27 @@ def run(ctx: Ctx):
     for t, (H, b, io) in enumerate(configs):
         run_chain(ctx, w, H, b, io, n, t)
     ctx.extra["configurations"] = len(configs)
+    # ---- batches in which EVERY decay is outside [0, 10] km (single events, all above, both sides): one zero row per event with
+    # one entry per frequency bin, and a finite (zero) SNR
+    for H, (lo, hi) in [(525.0, (30, 300)), (33.0, (0, 10)), (1000.0, (300, 1000))]:
+        cfg = make_config(w.nss, H, lo, hi, None)
+        for alts_ in ([12.0], [-0.5], [10.5, 11.0, 25.0, 40.0, 19.0], [-1.0, 30.0, -0.001, 10.000001]):
+            n_ = len(alts_)
+            ev = {"beta": rng.uniform(0.05, 0.7, n_), "alt": np.array(alts_, dtype=float), "len": rng.uniform(1.0, 50.0, n_),
+                  "theta": rng.uniform(0.0, 0.05, n_), "path": rng.uniform(600.0, 2500.0, n_), "energy": 10 ** rng.uniform(-2, 2, n_)}
+            case = {"detector_altitude": H, "low_frequency": lo, "high_frequency": hi, "altDec": alts_}
+            ctx.case(("all-out-of-range", H, lo, hi, tuple(alts_)), case if len(alts_) == 5 else None)
+            ctx.count("all-out-of-range-batches")
+            try:
+                EF, _ = real_efield(w.R, cfg, ev, rng)
+                snr = np.asarray(w.A.calculate_snr(EF, (float(lo), float(hi)), H, 10, 1.8))
+            except Exception as e:  # noqa
+                ctx.violation("EASRadio.__call__", "all-out-of-range-batch-raises", f"{type(e).__name__}: {str(e)[:120]}", case)
+                continue
+            if EF.shape != (n_, (hi - lo) // 10) or np.any(EF != 0):
+                ctx.violation("EASRadio.__call__", "all-out-of-range-batch-shape", f"field of a batch without in-range decays has shape {EF.shape}, expected {(n_, (hi - lo) // 10)} of zeros", case)
+            elif snr.shape != (n_,) or not np.all(snr == 0):
+                ctx.violation("calculate_snr", "out-of-range-snr", "zero field rows do not give one zero SNR per event", {**case, "snr": snr.tolist()})
     # ---- NaN hunts on the real code
     trials = 400000 if ctx.thorough else 60000
     f1 = hunt_arcsin(ctx, w, trials)
